@@ -146,6 +146,16 @@ def compare(chk, cls, hist, obj):
     for k in b:
         if k not in a or not Z.values_close(a[k], b[k], RT, AT):
             bad.append(k)
+    # recorded known finding miniball-randomised-solver: the randomised third-party solver occasionally answers differently for the
+    # same input; a miniball-based observable counts as stale only if it differs on every one of three re-evaluations
+    for k in [k for k in bad if k.startswith("minimal_bounding")]:
+        for _ in range(3):
+            va, vb = C.excname(lambda: Z.canon(getattr(obj, k))), C.excname(lambda: Z.canon(getattr(ref, k)))
+            if va[0] == "ok" and vb[0] == "ok" and Z.values_close(va[1], vb[1], RT, AT):
+                bad.remove(k)
+                if chk.is_known("miniball-randomised-solver"):
+                    chk.count("known:miniball(re-evaluation agrees)")
+                break
     if bad:
         k = bad[0]
         chk.violation("stale:" + "+".join(sorted(bad)[:4]), dict(cls=cls, history=hist, observable=k, mutated=str(a.get(k))[:400], fresh=str(b[k])[:400],
